@@ -377,5 +377,16 @@ func DrawSched(rt *rapid.T, maxTape int) SchedConfig {
 			c.Tape[i] = uint16(rapid.IntRange(0, 11).Draw(rt, "t"))
 		}
 	}
+	if rapid.IntRange(0, 3).Draw(rt, "starving") == 0 {
+		// One kind of scheduling point is starved: tasks parked there run only when nothing else can. A task
+		// that has looked and is about to act (check, then lock; reply, then store) then waits while everybody
+		// else runs as far as they can - the widest window a check-then-act race can get.
+		c.Starve = StarvePoints[rapid.IntRange(0, len(StarvePoints)-1).Draw(rt, "starve")]
+	}
 	return c
 }
+
+// StarvePoints are prefixes of scheduling-point keys ("point|detail").
+// The lock points carry the file that owns the mutex ("lock|cache.go:57"), so one mutex family can be starved
+// while the others run.
+var StarvePoints = []string{"lock|cache.go", "lock|failover.go", "lock|prometheus.go", "lock|cache.go", "lock|failover.go", "lock|", "promapi.job|", "promapi.slice|", "promapi.slice.result|", "scan.check|", "scan.report|", "srv.respond|", "forge|"}
